@@ -301,14 +301,16 @@ class _DateLocaleParser:
                 parse_method=parse_method,
                 settings=self._settings,
             )
-            self._settings.DATE_ORDER = _order
             return DateData(
                 date_obj=date_obj,
                 period=period,
             )
         except ValueError:
-            self._settings.DATE_ORDER = _order
             return None
+        finally:
+            # The settings object is shared: put the caller's date order back on
+            # every exit path, including exceptions other than ValueError.
+            self._settings.DATE_ORDER = _order
 
     def _try_given_formats(self):
         if not self.date_formats:
